@@ -2,7 +2,8 @@
 
 LogQLSem.tla defines what a log query means over an abstract database; LogQLPlan.tla transcribes the planners (label
 index + bit mask, like/notLike/match, simple label filters hoisted to time_series, labels join, parser / drop map
-functions with the SELECT-alias capture, ORDER/LIMIT placement, the Go engine after a `json` stage).  TLC enumerates the
+functions and the SELECT blocks they share (a label filter closes its block before a later drop / parser), ORDER/LIMIT
+placement, the Go engine after a `json` stage).  TLC enumerates the
 fragments of MC_LogQL.tla (M selectors, L line filters, P label filters / extraction / drop, W window / type / limit /
 direction) exhaustively plus a seeded sample of the product grammar (S), checks the structural invariants, reports every
 case where mechanism and definition differ (candidates) and exports cases with the definition's result.  cmd/c07
